@@ -90,24 +90,4 @@ func (s FS) CopyNonRefSimple() (atree.Storable, error) {
 
 func (s FS) String() string { return fmt.Sprintf("fs%d", s.Pay) }
 
-// AsTV returns the plain value behind a harness value (TV or FV).
-func AsTV(v atree.Value) (TV, bool) {
-	switch x := v.(type) {
-	case TV:
-		return x, true
-	case FV:
-		return x.TV, true
-	}
-	return TV{}, false
-}
-
-// AsTVStorable returns the plain value behind a harness storable (TV or FS) WITHOUT calling StoredValue.
-func AsTVStorable(s atree.Storable) (TV, bool) {
-	switch x := s.(type) {
-	case TV:
-		return x, true
-	case FS:
-		return x.TV, true
-	}
-	return TV{}, false
-}
+// AsTV / AsTVStorable (values.go) read FV / FS as the TV they are written as, without calling StoredValue.
